@@ -15,7 +15,7 @@ from harness import core, casegen, trace_exec
 
 INVARIANTS = ['FreshLayout', 'LayoutStable', 'ResultAfterAct', 'TmpUntouched', 'ProcessEnvUntouched', 'CdPersists',
               'RemovedAtEnd', 'ProcessStateRestored', 'CleanupExactlyOnce', 'SandboxBeforeEffects',
-              'CwdInSandboxWhileLive']
+              'CwdInSandboxWhileLive', 'CwdRemovalHarmless']
 ATC_EXIT = 3
 REAL = {'dir': 'dir sub', 'cd': 'cd sub', 'env': 'env VERIF_X = 1', 'tmpfile': 'file -rel-tmp u.txt = x'}
 
@@ -50,7 +50,10 @@ def concretize(c):
     if conf:
         parts.append('[conf]\n' + '\n'.join(conf) + '\n')
     parts.append('[setup]\n' + '\n'.join(setup) + '\n')
-    parts.append('[act]\n' + ('stub action\n' if stub_actor else casegen.atc_line(ATC_EXIT) + '\n'))
+    atc = casegen.atc_line(ATC_EXIT)
+    if c.get('fRm'):        # the action removes the directory it (and the test) stands in
+        atc = atc.replace('exit ', 'rmdir ../sub; exit ')
+    parts.append('[act]\n' + ('stub action\n' if stub_actor else atc + '\n'))
     parts.append('[before-assert]\n' + stub('ba', 1) + '\n')
     parts.append('[assert]\n' + stub('assert', 1) + '\n')
     parts.append('[cleanup]\n' + stub('cleanup', 1) + '\n')
@@ -59,6 +62,13 @@ def concretize(c):
 
 
 TRACKED = ('VERIF_X',)
+
+
+def _cwd_rel(root):
+    try:
+        return os.path.relpath(os.getcwd(), root)
+    except FileNotFoundError:
+        return 'gone'
 
 
 def exec_case(task, cd):
@@ -78,7 +88,7 @@ def exec_case(task, cd):
                 contents[f] = fh.read()
         snaps.append(dict(phase=phase, idx=idx, top=sorted(os.listdir(root)), result=sorted(os.listdir(res_dir)),
                           tmp=sorted(os.listdir(os.path.join(root, 'tmp'))),
-                          cwd=os.path.relpath(os.getcwd(), root), env=sorted(k for k in TRACKED if k in e),
+                          cwd=_cwd_rel(root), env=sorted(k for k in TRACKED if k in e),
                           penv=sorted(k for k in TRACKED if k in os.environ), contents=contents,
                           act=sorted(os.listdir(os.path.join(root, 'act')))))
 
@@ -185,13 +195,14 @@ def run(ctx):
     for c, o in zip(cases, obs):
         ctx.count()
         if c['endK'] != 0 or c['cleanupO'] != 'ok' or c['fCd'] or c['fEnv'] or c['fTmp'] or c['mode'] != 'normal':
-            ctx.nontrivial(json.dumps([c[k] for k in ('mode', 'endK', 'endI', 'endO', 'cleanupO', 'fCd', 'fEnv', 'fTmp')]))
+            ctx.nontrivial(json.dumps([c[k] for k in ('mode', 'endK', 'endI', 'endO', 'cleanupO', 'fCd', 'fEnv', 'fTmp',
+                                                      'fRm')]))
         clause = compare(c, o)
         if clause:
             bad += 1
-            ctx.fail('%s mode=%s end=%s#%d/%s cleanup=%s cd=%s env=%s tmp=%s' % (
+            ctx.fail('%s mode=%s end=%s#%d/%s cleanup=%s cd=%s env=%s tmp=%s rmcwd=%s' % (
                 clause.split(':')[0], c['mode'], '.'.join(c['endStep']), c['endI'], c['endO'], c['cleanupO'],
-                c['fCd'], c['fEnv'], c['fTmp']), dict(kind='case', case=c, observed=o, clause=clause))
+                c['fCd'], c['fEnv'], c['fTmp'], c['fRm']), dict(kind='case', case=c, observed=o, clause=clause))
         elif o.get('events'):
             items.append(dict(id='%s#%d/%s/%s' % ('.'.join(c['endStep']), c['endI'], c['endO'], c['mode']),
                               events=o['events'], argv=o['argv'], files={'c.case': o['text']}))
@@ -248,7 +259,7 @@ def run(ctx):
     ctx.cov['negative_controls_rejected'] += rejected
     for j in (1, len(cases) // 2, len(cases) - 2):
         c, o = cases[j], obs[j]
-        ctx.sample(dict(case={k: c[k] for k in ('mode', 'endStep', 'endI', 'endO', 'cleanupO', 'fCd', 'fEnv', 'fTmp')},
+        ctx.sample(dict(case={k: c[k] for k in ('mode', 'endStep', 'endI', 'endO', 'cleanupO', 'fCd', 'fEnv', 'fTmp', 'fRm')},
                         text=o.get('text'), snapshots=[{k: s[k] for k in ('phase', 'idx', 'top', 'result', 'tmp', 'cwd')}
                                                        for s in o.get('snaps', [])],
                         sandboxes_left=o.get('sandboxes'), exit=o.get('exit')))
